@@ -61,6 +61,18 @@ func (e *Engine) guardOf(owner, field string) guardInfo {
 					return guardInfo{Kind: "guard", Locks: locks}
 				}
 			}
+		case "guardmap":
+			for _, f := range strings.Fields(cl.Expr) {
+				if f+"[]" == field {
+					var locks []string
+					for _, w := range cl.Words {
+						if w != "&" {
+							locks = append(locks, w)
+						}
+					}
+					return guardInfo{Kind: "guard", Locks: locks}
+				}
+			}
 		case "frozen", "atomic", "racy", "owned":
 			for _, f := range strings.Fields(cl.Expr) {
 				if f == field {
@@ -210,6 +222,21 @@ func (r *Run) accessCheck(st *State, fr *Frame, a *Addr, write bool, in ssa.Inst
 	} else {
 		goal = Or(goals...)
 	}
+	if strings.HasSuffix(field, "[]") && write {
+		if eg := e.entryGuard(owner, strings.TrimSuffix(field, "[]")); eg != "" && a.Idx.S != "" {
+			var ds []T
+			for _, l := range st.Locks {
+				if l.Class == eg && l.Mode == LockW && l.Base.So == a.Idx.So {
+					ds = append(ds, Eq(l.Base, a.Idx))
+				}
+			}
+			fresh := False
+			if r.createdHere(st, a.Idx) {
+				fresh = True // an object created by this call has no other holder of its lock yet
+			}
+			goal = And(goal, Or(append(ds, fresh)...))
+		}
+	}
 	name := fmt.Sprintf("%s/lockset:%s.%s", e.fnName[fr.Fn], field, rw)
 	text := fmt.Sprintf("%s of %s requires %s held (lockset {%s})", map[bool]string{true: "write", false: "read"}[write], a.Region, strings.Join(gi.Locks, " & "), locksKey(st.Locks))
 	e.emitWith(st, name, "", nil, goal, text, e.posOf(in), []string{"C11"}, nil)
@@ -222,8 +249,34 @@ func (r *Run) mapAccessCheck(st *State, fr *Frame, m T, write bool, in ssa.Instr
 	if !ok {
 		return
 	}
+	// contents of the map: declared with `guardmap`; otherwise they share the field's protection
+	parts := strings.SplitN(a.Region, ".", 2)
+	if len(parts) == 2 && e.guardOf(parts[0], parts[1]+"[]").Kind != "" {
+		ca := *a
+		ca.Region = a.Region + "[]"
+		r.accessCheck(st, fr, &ca, write, in)
+		return
+	}
 	if !write {
 		// the load itself was already checked
+		return
+	}
+	r.accessCheck(st, fr, a, true, in)
+}
+
+// mapKeyAccessCheck: a write of entry m[k].
+func (r *Run) mapKeyAccessCheck(st *State, fr *Frame, m, k T, in ssa.Instruction) {
+	e := r.e
+	a, ok := e.loaded[m.S]
+	if !ok {
+		return
+	}
+	parts := strings.SplitN(a.Region, ".", 2)
+	if len(parts) == 2 && e.guardOf(parts[0], parts[1]+"[]").Kind != "" {
+		ca := *a
+		ca.Region = a.Region + "[]"
+		ca.Idx = k
+		r.accessCheck(st, fr, &ca, true, in)
 		return
 	}
 	r.accessCheck(st, fr, a, true, in)
@@ -253,6 +306,15 @@ func (e *Engine) guardedFields(owner, lock string) []string {
 			}
 		}
 	}
+	for _, cl := range tb.All("guardmap") {
+		for _, w := range cl.Words {
+			if w == lock {
+				for _, f := range strings.Fields(cl.Expr) {
+					out = append(out, f+"[]")
+				}
+			}
+		}
+	}
 	return out
 }
 
@@ -262,8 +324,73 @@ func (r *Run) havocGuardedOf(st *State, owner, lock string, base T) {
 		return
 	}
 	for _, f := range r.e.guardedFields(owner, lock) {
+		if strings.HasSuffix(f, "[]") {
+			r.havocMapContents(st, t, owner, base, strings.TrimSuffix(f, "[]"))
+			continue
+		}
 		r.havocField(st, t, base, f)
 	}
+}
+
+// havocMapContents forgets the contents of the map held in field fname of base, except the entries
+// whose key object's own lock is held by this goroutine (`entryguard <field> : <Type.lock>`).
+func (r *Run) havocMapContents(st *State, ownerT types.Type, owner string, base T, fname string) {
+	e := r.e
+	pt := ownerT
+	if p, ok := pt.Underlying().(*types.Pointer); ok {
+		pt = p.Elem()
+	}
+	s, ok := pt.Underlying().(*types.Struct)
+	if !ok {
+		return
+	}
+	for i := 0; i < s.NumFields(); i++ {
+		f := s.Field(i)
+		if f.Name() != fname {
+			continue
+		}
+		m := e.readLoc(st, fieldRegionName(owner, fname), f.Type(), base).(T)
+		ml := e.mapLayout(f.Type())
+		// entries to keep
+		type kept struct {
+			k   T
+			has T
+			val Val
+		}
+		var keep []kept
+		if eg := e.entryGuard(owner, fname); eg != "" {
+			for _, l := range st.Locks {
+				if l.Class == eg && l.Base.So == ml.ksort {
+					keep = append(keep, kept{l.Base, e.mapHas(st, ml, m, l.Base), e.mapVal(st, ml, m, l.Base)})
+				}
+			}
+		}
+		r.havocMapAt(st, f.Type(), m)
+		for _, kp := range keep {
+			st.assume(Eq(e.mapHas(st, ml, m, kp.k), kp.has))
+			nv := e.mapVal(st, ml, m, kp.k)
+			if a, ok := nv.(T); ok {
+				if b, ok := kp.val.(T); ok {
+					st.assume(Eq(a, b))
+				}
+			}
+		}
+		return
+	}
+}
+
+// entryGuard: `entryguard <mapfield> : <Type.lock>` — entry m[k] is additionally protected by k's own lock.
+func (e *Engine) entryGuard(owner, field string) string {
+	tb := e.cs.Types[owner]
+	if tb == nil {
+		return ""
+	}
+	for _, cl := range tb.All("entryguard") {
+		if len(cl.Words) >= 1 && cl.Words[0] == field {
+			return strings.TrimSpace(cl.Expr)
+		}
+	}
+	return ""
 }
 
 func (r *Run) assumeInvariants(st *State, owner, lock string, base T) {
@@ -451,6 +578,11 @@ func (r *Run) release(st *State, fr *Frame, lr LockRef, mode LockMode, in ssa.In
 				for _, up := range b.All("update-at-release") {
 					r.applyUpdateAtExit(st, top, up, nil)
 				}
+				for _, as := range b.All("assume-at-release") {
+					t := e.evalClause(st, top, as, nil)
+					st.assume(t)
+					e.note("ghost definition at release in %s (prophecy resolution of a rigid history): %s", e.fnName[top.Fn], as.Expr)
+				}
 			}
 		}
 		r.assertInvariants(st, fr, lr.Owner, lr.Field, lr.Base, in, "release")
@@ -593,9 +725,18 @@ func (r *Run) recvEvent(st *State, fr *Frame, ch T, et types.Type, in ssa.Instru
 	e := r.e
 	r.bumpChan(st, "recvd", ch)
 	r.yield(st, fr, in, "recv")
+	r.atCall(st, fr, "recv", []Val{ch}, nil, in)
+	if ctx, ok := e.doneOf[ch.S]; ok {
+		// a receive from ctx.Done() returns only once ctx is cancelled
+		r.ctxStep(st)
+		st.assume(r.cancelled(st, ctx))
+	}
 	v := e.freshVal(st, et, "recv")
 	r.assumeChanMsg(st, ch, v, et)
 	st.Ghost["lastrecv:"+ch.S] = v
+	if _, isSel := in.(*ssa.Select); !isSel {
+		r.afterCall(st, fr, "recv", []Val{ch}, []Val{v}, nil, in)
+	}
 	return v
 }
 
